@@ -797,11 +797,21 @@ class PairInjector:
         self.C.spatial_search, self.C._create_return = self.o_ss, self.o_cr
 
 
-def point_ds(n, lat, lon, t, bt, idbase):
+def point_ds(n, lat, lon, t, bt, idbase, grid=None):
     import numpy as np
     import xarray as xr
+    t0 = np.datetime64("2020-01-01T00:00:00")
+    if grid:
+        nl, npos = grid        # gridded input: time per scan line, positions per (scan line, position)
+        return xr.Dataset({
+            "time": ("scnline", t0 + np.array(t, dtype=int).astype("timedelta64[s]")),
+            "lat": (("scnline", "scnpos"), np.array(lat, dtype=float).reshape(nl, npos)),
+            "lon": (("scnline", "scnpos"), np.array(lon, dtype=float).reshape(nl, npos)),
+            "x": (("scnline", "scnpos"), (np.arange(n) * 1.0 + idbase).reshape(nl, npos)),
+            "bt": (("scnline", "scnpos", "channel"), from_nested(bt).reshape(nl, npos, -1)),
+        }, coords={"scnline": np.arange(nl), "scnpos": np.arange(npos)})
     return xr.Dataset({
-        "time": ("c", np.datetime64("2020-01-01T00:00:00") + np.array(t, dtype=int).astype("timedelta64[s]")),
+        "time": ("c", t0 + np.array(t, dtype=int).astype("timedelta64[s]")),
         "lat": ("c", np.array(lat, dtype=float)), "lon": ("c", np.array(lon, dtype=float)),
         "x": ("c", np.arange(n) * 1.0 + idbase),
         "bt": (("c", "channel"), from_nested(bt).reshape(n, -1)),
@@ -814,8 +824,8 @@ def run_collocate_case(ck, case, use_model):
     from typhon.collocations import Collocator
     what_case = dict(case, check="compaction")
     P, S = case["P"], case["S"]
-    a = point_ds(len(P["lat"]), P["lat"], P["lon"], P["t"], P["bt"], 0)
-    b = point_ds(len(S["lat"]), S["lat"], S["lon"], S["t"], S["bt"], 100000)
+    a = point_ds(len(P["lat"]), P["lat"], P["lon"], P["t"], P["bt"], 0, P.get("grid"))
+    b = point_ds(len(S["lat"]), S["lat"], S["lon"], S["t"], S["bt"], 100000, S.get("grid"))
     inject = case.get("pairs") if case["op"] == "inject" else None
     with PairInjector(inject) as spy, warnings.catch_warnings():
         warnings.simplefilter("ignore")
@@ -883,7 +893,7 @@ def run_collocate_case(ck, case, use_model):
             check_concat(ck, [res, res], case, True, use_model)
     mult = max(np.bincount(pairs[0]).max(), np.bincount(pairs[1]).max()) if n else 0
     ck.case(key=json.dumps(op.tolist())[:4000] if n > 1 else None,
-            kind=f"{case['op']}/" + ("multi" if mult > 1 else "one2one"),
+            kind=f"{case['op']}/" + ("multi" if mult > 1 else "one2one") + ("/gridded" if P.get("grid") or S.get("grid") else ""),
             sample={"op": case["op"], "original_pairs": op[:, :10].tolist() if op is not None else None, "new_pairs": pairs[:, :10].tolist()})
 
 
@@ -896,7 +906,15 @@ def gen_points(rng, n, box):
 def gen_collocate_case(rng):
     nP, nS = rng.randint(1, 25), rng.randint(1, 25)
     box = rng.choice([0.05, 0.3, 1.0])
-    return {"op": "collocate", "P": gen_points(rng, nP, box), "S": gen_points(rng, nS, box),
+    P, S = gen_points(rng, nP, box), gen_points(rng, nS, box)
+    for pts in (P, S):
+        if rng.random() < 0.25:       # gridded (scan line x position) input
+            nl, npos = rng.randint(1, 4), rng.randint(1, 5)
+            g = gen_points(rng, nl * npos, box)
+            pts.update(g)
+            pts["t"] = sorted(g["t"][:nl])
+            pts["grid"] = [nl, npos]
+    return {"op": "collocate", "P": P, "S": S,
             "dist_km": rng.choice([3, 10, 30, 200]), "interval_s": rng.choice([None, 30, 200, 10000])}
 
 
